@@ -197,6 +197,10 @@ def _run_one(mod, case, stats: Stats, open_ids) -> Result:
         res = Result(ok=False, sample=case,
                      msg=f"the case did not finish within {CASE_TIMEOUT_S} s (ordinary cases take milliseconds): the code under test does not terminate")
         _TIMEOUT_VIOLATION = {"case": case, "msg": res.msg}
+    except RecursionError:
+        # the harness itself only recurses over trees the code under test returned: unbounded recursion means the code under
+        # test recursed without end, or handed back a structure that contains itself
+        res = Result(ok=False, sample=case, msg="RecursionError: the code under test recursed without end, or returned a tree that is reachable from itself")
     finally:
         signal.alarm(0)
         signal.signal(signal.SIGALRM, old_handler)
